@@ -360,7 +360,11 @@ func (vfs *OrefaFS) Link(oldname, newname string) error {
 	}
 
 	// the type of a node never changes, it can be tested before locking:
-	// a directory and its own child directory must not be locked together.
+	// the old node and the new parent must not be the same node.
+	if !nParent.mode.IsDir() {
+		return &os.LinkError{Op: op, Old: oldname, New: newname, Err: vfs.err.NotADirectory}
+	}
+
 	if oChild.mode.IsDir() {
 		err := error(avfs.ErrOpNotPermitted)
 		if vfs.OSType() == avfs.OsWindows {
